@@ -1,7 +1,10 @@
 (* C11 — export followed by import on PLAIN buses: every message holds standard signals only, no
-   descriptions, attributes, timing or send types (the structural core: nodes in order, messages by
-   CAN-ID with name / size / byte order / sender / receivers, signals with name, start bit in both
-   byte orders, size, signedness, factor, offset, minimum, maximum, unit; names with blanks).
+   attributes, timing or send types; descriptions of the bus, nodes, messages and signals are free
+   (the structural core: nodes in order, messages by CAN-ID with name / size / byte order / sender /
+   receivers / description, signals with name, start bit in both byte orders, size, signedness,
+   factor, offset, minimum, maximum, unit, description; names with blanks).
+   The statement is at AST level: `export_import b = import (text_roundtrip (export b))`, where
+   `text_roundtrip` is the MODELLED effect of dbc.Write + dbc.Parse.
    The full statement (every bus that is well formed and DBC-expressible) is
    `export_import_full_statement` below; enum signals, attributes and multiplexers are covered by
    the component theorems of Proofs.v (attr_def_roundtrip, attr_value_roundtrip,
@@ -18,7 +21,7 @@ Notation clear := clear_spaces.
 
 (* ---------------- the class of plain buses ---------------- *)
 Definition plain_signal (s : signal) : Prop :=
-  s_kind s = KStandard /\ s_parent s = None /\ s_groups s = [] /\ s_desc s = EmptyString /\
+  s_kind s = KStandard /\ s_parent s = None /\ s_groups s = [] /\
   s_startval s = fl_zero /\ s_sendtype s = 0 /\ s_attrs s = [] /\ 0 < s_size s < 2 ^ 32 /\ 0 <= s_rel s.
 
 (* signals in position order, pairwise disjoint, inside the payload *)
@@ -29,7 +32,7 @@ Fixpoint layout_ok (from limit : Z) (l : list signal) : Prop :=
   end.
 
 Definition plain_message (node_names : list string) (m : message) : Prop :=
-  m_desc m = EmptyString /\ m_attrs m = [] /\ m_cycle m = 0 /\ m_delay m = 0 /\ m_startdelay m = 0 /\
+  m_attrs m = [] /\ m_cycle m = 0 /\ m_delay m = 0 /\ m_startdelay m = 0 /\
   m_sendtype m = 0 /\ 0 <= m_canid m < 2 ^ 32 /\ 0 <= m_size m <= 8 /\
   Forall plain_signal (m_signals m) /\ layout_ok 0 (m_size m * 8) (m_signals m) /\
   NoDup (map (fun s => clear (s_name s)) (m_signals m)) /\
@@ -37,8 +40,8 @@ Definition plain_message (node_names : list string) (m : message) : Prop :=
   NoDup (map clear (m_receivers m)) /\ (m_signals m = [] -> m_receivers m = []).
 
 Definition plain_bus (b : bus) : Prop :=
-  b_desc b = EmptyString /\ b_attrs b = [] /\
-  Forall (fun n => n_desc n = EmptyString /\ n_attrs n = []) (b_nodes b) /\
+  b_attrs b = [] /\
+  Forall (fun n => n_attrs n = []) (b_nodes b) /\
   NoDup (map (fun n => clear (n_name n)) (b_nodes b)) /\
   ~ In dummy_node (map (fun n => clear (n_name n)) (b_nodes b)) /\
   (length (b_nodes b) <= 1024)%nat /\
@@ -59,16 +62,36 @@ Definition dmsg_of (m : message) : dmessage :=
   mkdmessage (u32 (m_canid m)) (clear (m_name m)) (u32 (m_size m)) (clear (m_sender m))
              (map (dsig_of (m_order m) (recs_out m)) (m_signals m)).
 
+(* the comments *)
+Definition opt_cm (desc : string) (c : dcomment) : list dcomment :=
+  if String.eqb desc EmptyString then [] else [c].
+Definition sig_cms (msgid : Z) (s : signal) : list dcomment :=
+  opt_cm (s_desc s) (mkdcomment OSignal (s_desc s) EmptyString msgid (clear (s_name s))).
+Definition msg_cms (m : message) : list dcomment :=
+  opt_cm (m_desc m) (mkdcomment OMessage (m_desc m) EmptyString (u32 (m_canid m)) EmptyString)
+  ++ flat_map (sig_cms (u32 (m_canid m))) (m_signals m).
+Definition node_cms (b : bus) (n : node) : list dcomment :=
+  opt_cm (n_desc n) (mkdcomment ONode (n_desc n) (clear (n_name n)) 0 EmptyString)
+  ++ flat_map msg_cms (filter (fun m => String.eqb (m_sender m) (n_name n)) (b_messages b)).
+Definition doc_cms (b : bus) : list dcomment :=
+  opt_cm (b_desc b) (mkdcomment OGeneral (b_desc b) EmptyString 0 EmptyString) ++ flat_map (node_cms b) (b_nodes b).
+
 Lemma abs_start_top : forall fuel sigs s, s_parent s = None -> abs_start fuel sigs s = s_rel s.
 Proof. intros fuel sigs s H. destruct fuel; cbn; rewrite H; reflexivity. Qed.
 
+Definition add_cms (l : list dcomment) (acc : eacc) : eacc :=
+  mkeacc (ea_comments acc ++ l) (ea_attrs acc) (ea_attrdefs acc) (ea_attrvals acc) (ea_valencs acc)
+         (ea_extmuxes acc) (ea_messages acc) (ea_sigs acc) (ea_names acc) (ea_enums acc).
+
 Lemma export_signal_plain : forall es sigs order msgid recs many fuel s acc,
   plain_signal s ->
-  export_signal es sigs order msgid recs many fuel s acc = add_sig (dsig_of order recs s) acc.
+  export_signal es sigs order msgid recs many fuel s acc = add_sig (dsig_of order recs s) (add_cms (sig_cms msgid s) acc).
 Proof.
-  intros es sigs order msgid recs many fuel s acc [Hk [Hp [Hg [Hd [Hv [Ht [Ha _]]]]]]].
-  destruct fuel; cbn [export_signal]; rewrite Hd, Ha, Hv, Ht, Hp, Hk; cbn;
-    rewrite abs_start_top by assumption; reflexivity.
+  intros es sigs order msgid recs many fuel s acc [Hk [Hp [Hg [Hv [Ht [Ha _]]]]]].
+  unfold sig_cms, opt_cm.
+  destruct fuel; cbn [export_signal]; rewrite Ha, Hv, Ht, Hp, Hk; cbn;
+    rewrite abs_start_top by assumption; destruct (String.eqb (s_desc s) EmptyString); cbn;
+    unfold add_cms, add_sig, add_comment; cbn; rewrite ?app_nil_r; destruct acc; reflexivity.
 Qed.
 
 Definition add_sigs (l : list dsignal) (acc : eacc) : eacc :=
@@ -78,12 +101,12 @@ Definition add_sigs (l : list dsignal) (acc : eacc) : eacc :=
 Lemma export_signals_plain : forall es sigs order msgid recs many fuel l acc,
   Forall plain_signal l ->
   fold_left (fun a s => export_signal es sigs order msgid recs many fuel s a) l acc
-  = add_sigs (map (dsig_of order recs) l) acc.
+  = add_sigs (map (dsig_of order recs) l) (add_cms (flat_map (sig_cms msgid) l) acc).
 Proof.
-  intros es sigs order msgid recs many fuel l. induction l as [|s r IH]; intros acc H; cbn [fold_left map].
-  - unfold add_sigs. rewrite app_nil_r. destruct acc; reflexivity.
+  intros es sigs order msgid recs many fuel l. induction l as [|s r IH]; intros acc H; cbn [fold_left map flat_map].
+  - unfold add_sigs, add_cms. cbn. rewrite !app_nil_r. destruct acc; reflexivity.
   - inversion H; subst. rewrite export_signal_plain by assumption. rewrite IH by assumption.
-    unfold add_sigs, add_sig. cbn. rewrite <- app_assoc. reflexivity.
+    unfold add_sigs, add_sig, add_cms. cbn. rewrite <- !app_assoc. reflexivity.
 Qed.
 
 (* a list whose keys strictly ascend is its own sort *)
@@ -105,9 +128,9 @@ Qed.
 Lemma layout_ascending : forall l from limit, Forall plain_signal l -> layout_ok from limit l -> ascending_by s_rel l.
 Proof.
   induction l as [|s r IH]; intros from limit Hp H; [exact I|].
-  cbn in H. destruct H as [H1 [H2 H3]]. inversion Hp; subst. split; [|eapply IH; eauto].
+  cbn in H. destruct H as [H1 [H2 H3]]. inversion Hp as [|? ? Hps Hpr]; subst. split; [|eapply IH; eauto].
   destruct r as [|y q]; [exact I|]. cbn in H3. destruct H3 as [H3 _].
-  destruct H4 as [_ [_ [_ [_ [_ [_ [_ [Hs _]]]]]]]]. lia.
+  destruct Hps as [_ [_ [_ [_ [_ [_ [Hs _]]]]]]]. lia.
 Qed.
 
 Lemma filter_all : forall {A} (p : A -> bool) l, (forall x, In x l -> p x = true) -> filter p l = l.
@@ -116,36 +139,39 @@ Proof.
   rewrite (H x (or_introl eq_refl)). f_equal. apply IH. intros y Hy. apply H. right. assumption.
 Qed.
 
-Definition clean_acc (msgs : list dmessage) (sigs : list dsignal) : eacc :=
-  mkeacc [] [] [] [] [] [] msgs sigs [] [].
+Definition clean_acc (cms : list dcomment) (msgs : list dmessage) (sigs : list dsignal) : eacc :=
+  mkeacc cms [] [] [] [] [] msgs sigs [] [].
 
-Lemma export_message_plain : forall names es m msgs sigs,
+Lemma export_message_plain : forall names es m cms msgs sigs,
   plain_message names m ->
-  export_message es m (clean_acc msgs sigs) = clean_acc (msgs ++ [dmsg_of m]) [].
+  export_message es m (clean_acc cms msgs sigs) = clean_acc (cms ++ msg_cms m) (msgs ++ [dmsg_of m]) [].
 Proof.
-  intros names es m msgs sigs [Hd [Ha [Hc [Hdl [Hsd [Hst [Hid [Hsz [Hps [Hlay _]]]]]]]]]].
-  unfold export_message. rewrite Hd, Ha, Hc, Hdl, Hsd, Hst. cbn [String.eqb Z.eqb app sort_attrs sort_by fold_right fold_left].
+  intros names es m cms msgs sigs [Ha [Hc [Hdl [Hsd [Hst [Hid [Hsz [Hps [Hlay _]]]]]]]]].
+  unfold export_message. rewrite Ha, Hc, Hdl, Hsd, Hst. cbn [Z.eqb app sort_attrs sort_by fold_right fold_left].
   assert (Htop : filter (fun s => match s_parent s with None => true | Some _ => false end) (m_signals m) = m_signals m).
   { apply filter_all. intros s Hs. rewrite Forall_forall in Hps. destruct (Hps s Hs) as [_ [Hp _]]. rewrite Hp. reflexivity. }
   rewrite Htop. rewrite (sort_by_ascending s_rel) by (eapply layout_ascending; eauto).
   assert (Hmany : Nat.ltb 1 (length (filter (fun s => match s_kind s with KMux => true | _ => false end) (m_signals m))) = false).
   { rewrite (Proofs.filter_nil); [reflexivity|]. intros s Hs. rewrite Forall_forall in Hps. destruct (Hps s Hs) as [Hk _]. rewrite Hk. reflexivity. }
   rewrite Hmany. rewrite export_signals_plain by assumption.
-  unfold dmsg_of, recs_out, clean_acc, add_message, add_sigs, set_sigs. cbn. reflexivity.
+  unfold msg_cms, opt_cm. destruct (String.eqb (m_desc m) EmptyString);
+    unfold dmsg_of, recs_out, clean_acc, add_message, add_sigs, add_cms, add_comment, set_sigs; cbn;
+    rewrite <- ?app_assoc; reflexivity.
 Qed.
 
-Lemma export_messages_plain : forall names es l msgs,
+Lemma export_messages_plain : forall names es l cms msgs,
   Forall (plain_message names) l ->
-  fold_left (fun a m => export_message es m a) l (clean_acc msgs []) = clean_acc (msgs ++ map dmsg_of l) [].
+  fold_left (fun a m => export_message es m a) l (clean_acc cms msgs [])
+  = clean_acc (cms ++ flat_map msg_cms l) (msgs ++ map dmsg_of l) [].
 Proof.
-  intros names es l. induction l as [|m r IH]; intros msgs H; cbn [fold_left map].
-  - rewrite app_nil_r. reflexivity.
+  intros names es l. induction l as [|m r IH]; intros cms msgs H; cbn [fold_left map flat_map].
+  - rewrite !app_nil_r. reflexivity.
   - inversion H; subst. rewrite (export_message_plain names) by assumption. rewrite IH by assumption.
-    rewrite <- app_assoc. reflexivity.
+    rewrite <- !app_assoc. reflexivity.
 Qed.
 
 Definition plain_doc (b : bus) : doc :=
-  mkdoc (b_name b) (map (fun n => clear (n_name n)) (b_nodes b)) [] (map dmsg_of (b_messages b)) [] [] [] [] [] [].
+  mkdoc (b_name b) (map (fun n => clear (n_name n)) (b_nodes b)) [] (map dmsg_of (b_messages b)) (doc_cms b) [] [] [] [] [].
 
 Lemma Forall_filter : forall {A} (P : A -> Prop) p l, Forall P l -> Forall P (filter p l).
 Proof.
@@ -154,10 +180,10 @@ Qed.
 
 Lemma export_plain : forall b, plain_bus b -> export b = plain_doc b.
 Proof.
-  intros b [Hd [Ha [Hn [_ [_ [_ [Hm [_ [_ Hg]]]]]]]]].
-  unfold export. rewrite Hd, Ha. cbn [String.eqb sort_attrs sort_by fold_right fold_left].
-  assert (Hnodes : forall nodes msgs0,
-    Forall (fun n => n_desc n = EmptyString /\ n_attrs n = []) nodes ->
+  intros b [Ha [Hn [_ [_ [_ [Hm [_ [_ Hg]]]]]]]].
+  unfold export. rewrite Ha. cbn [sort_attrs sort_by fold_right fold_left].
+  assert (Hnodes : forall nodes cms0 msgs0,
+    Forall (fun n => n_attrs n = []) nodes ->
     fold_left (fun a n =>
         let name := clear (n_name n) in
         let a := if String.eqb (n_desc n) EmptyString then a
@@ -165,21 +191,260 @@ Proof.
         let a := fold_left (fun a x => export_assignment ONode name 0 EmptyString x a) (sort_attrs (n_attrs n)) a in
         fold_left (fun a m => export_message (b_enums b) m a)
                   (filter (fun m => String.eqb (m_sender m) (n_name n)) (b_messages b)) a)
-      nodes (clean_acc msgs0 [])
-    = clean_acc (msgs0 ++ map dmsg_of (flat_map (fun n => filter (fun m => String.eqb (m_sender m) (n_name n)) (b_messages b)) nodes)) []).
-  { induction nodes as [|n r IH]; intros msgs0 Hf; cbn [fold_left flat_map map].
-    - rewrite app_nil_r. reflexivity.
-    - inversion Hf as [|? ? [Hnd Hna] Hr]; subst. rewrite Hnd, Hna.
-      cbn [String.eqb sort_attrs sort_by fold_right fold_left].
+      nodes (clean_acc cms0 msgs0 [])
+    = clean_acc (cms0 ++ flat_map (node_cms b) nodes)
+                (msgs0 ++ map dmsg_of (flat_map (fun n => filter (fun m => String.eqb (m_sender m) (n_name n)) (b_messages b)) nodes)) []).
+  { induction nodes as [|n r IH]; intros cms0 msgs0 Hf; cbn [fold_left flat_map map].
+    - rewrite !app_nil_r. reflexivity.
+    - inversion Hf as [|? ? Hna Hr]; subst. rewrite Hna.
+      cbn [sort_attrs sort_by fold_right fold_left].
+      assert (Hcm : (if String.eqb (n_desc n) EmptyString then clean_acc cms0 msgs0 []
+                     else add_comment (mkdcomment ONode (n_desc n) (clear (n_name n)) 0 EmptyString) (clean_acc cms0 msgs0 []))
+                    = clean_acc (cms0 ++ opt_cm (n_desc n) (mkdcomment ONode (n_desc n) (clear (n_name n)) 0 EmptyString)) msgs0 []).
+      { unfold opt_cm. destruct (String.eqb (n_desc n) EmptyString); [rewrite app_nil_r; reflexivity|reflexivity]. }
+      rewrite Hcm.
       rewrite (export_messages_plain (map n_name (b_nodes b))) by (apply Forall_filter; assumption).
-      rewrite IH by assumption. rewrite map_app, app_assoc. reflexivity. }
-  change (mkeacc [] [] [] [] [] [] [] [] [] []) with (clean_acc [] []).
-  rewrite Hnodes by assumption. rewrite Hg. cbn. reflexivity.
+      rewrite IH by assumption. unfold node_cms. rewrite map_app, <- !app_assoc. reflexivity. }
+  assert (H0 : (if String.eqb (b_desc b) EmptyString then mkeacc [] [] [] [] [] [] [] [] [] []
+                else add_comment (mkdcomment OGeneral (b_desc b) EmptyString 0 EmptyString) (mkeacc [] [] [] [] [] [] [] [] [] []))
+               = clean_acc (opt_cm (b_desc b) (mkdcomment OGeneral (b_desc b) EmptyString 0 EmptyString)) [] []).
+  { unfold opt_cm. destruct (String.eqb (b_desc b) EmptyString); reflexivity. }
+  rewrite H0. rewrite Hnodes by assumption. rewrite Hg. cbn. reflexivity.
 Qed.
 
+(* ---------------- the comment maps the importer builds ---------------- *)
+Definition desc_of {K} (eqb : K -> K -> bool) (k : K) (l : list (K * string)) : string :=
+  match lookup eqb k l with Some d => d | None => EmptyString end.
+
+Definition npairs (cs : list dcomment) : list (string * string) :=
+  flat_map (fun c => match cm_kind c with ONode => [(cm_node c, cm_text c)] | _ => [] end) cs.
+Definition mpairs (cs : list dcomment) : list (Z * string) :=
+  flat_map (fun c => match cm_kind c with OMessage => [(cm_msg c, cm_text c)] | _ => [] end) cs.
+Definition spairs (cs : list dcomment) : list (key * string) :=
+  flat_map (fun c => match cm_kind c with OSignal => [((cm_msg c, cm_sig c), cm_text c)] | _ => [] end) cs.
+Definition gdesc (cs : list dcomment) (a : string) : string :=
+  fold_left (fun a c => match cm_kind c with OGeneral => cm_text c | _ => a end) cs a.
+
+Lemma import_comments_spec : forall cs,
+  import_comments cs = (gdesc cs EmptyString, (rev (npairs cs), rev (mpairs cs), rev (spairs cs))).
+Proof.
+  intros cs. unfold import_comments.
+  assert (H : forall cs b nd md sd,
+    fold_left (fun '(bdesc, (nd, md, sd)) c =>
+      match cm_kind c with
+      | OGeneral => (cm_text c, (nd, md, sd))
+      | ONode => (bdesc, ((cm_node c, cm_text c) :: nd, md, sd))
+      | OMessage => (bdesc, (nd, (cm_msg c, cm_text c) :: md, sd))
+      | OSignal => (bdesc, (nd, md, ((cm_msg c, cm_sig c), cm_text c) :: sd))
+      | OEnvVar => (bdesc, (nd, md, sd))
+      end) cs (b, (nd, md, sd))
+    = (gdesc cs b, (rev (npairs cs) ++ nd, rev (mpairs cs) ++ md, rev (spairs cs) ++ sd))).
+  { clear cs. induction cs as [|c r IH]; intros b nd md sd; [reflexivity|].
+    unfold npairs, mpairs, spairs, gdesc in *. cbn [fold_left flat_map].
+    destruct (cm_kind c); rewrite IH; cbn [app rev]; rewrite <- ?app_assoc; reflexivity. }
+  rewrite H. rewrite !app_nil_r. reflexivity.
+Qed.
+
+Lemma in_pairs_n : forall cs k v, In (k, v) (npairs cs) <-> exists c, In c cs /\ cm_kind c = ONode /\ cm_node c = k /\ cm_text c = v.
+Proof.
+  intros cs k v. unfold npairs. rewrite in_flat_map. split.
+  - intros [c [Hc Hin]]. exists c. destruct (cm_kind c); try (destruct Hin; fail).
+    destruct Hin as [Hin|[]]. inversion Hin. auto.
+  - intros [c [Hc [Hk [H1 H2]]]]. exists c. split; [assumption|]. rewrite Hk. subst. left. reflexivity.
+Qed.
+Lemma in_pairs_m : forall cs k v, In (k, v) (mpairs cs) <-> exists c, In c cs /\ cm_kind c = OMessage /\ cm_msg c = k /\ cm_text c = v.
+Proof.
+  intros cs k v. unfold mpairs. rewrite in_flat_map. split.
+  - intros [c [Hc Hin]]. exists c. destruct (cm_kind c); try (destruct Hin; fail).
+    destruct Hin as [Hin|[]]. inversion Hin. auto.
+  - intros [c [Hc [Hk [H1 H2]]]]. exists c. split; [assumption|]. rewrite Hk. subst. left. reflexivity.
+Qed.
+Lemma in_pairs_s : forall cs k v, In (k, v) (spairs cs) <-> exists c, In c cs /\ cm_kind c = OSignal /\ (cm_msg c, cm_sig c) = k /\ cm_text c = v.
+Proof.
+  intros cs k v. unfold spairs. rewrite in_flat_map. split.
+  - intros [c [Hc Hin]]. exists c. destruct (cm_kind c); try (destruct Hin; fail).
+    destruct Hin as [Hin|[]]. inversion Hin. auto.
+  - intros [c [Hc [Hk [H1 H2]]]]. exists c. split; [assumption|]. rewrite Hk. subst. left. reflexivity.
+Qed.
+
+(* a lookup is determined by membership when the map is functional at the key *)
+Section DescOf.
+  Context {K : Type} (eqb : K -> K -> bool).
+  Hypothesis eqb_eq : forall a b, eqb a b = true <-> a = b.
+
+  Lemma lookup_in_some : forall k (l : list (K * string)) v, lookup eqb k l = Some v -> In (k, v) l.
+  Proof.
+    intros k l v. induction l as [|[k' v'] r IH]; cbn; [discriminate|].
+    destruct (eqb k k') eqn:E.
+    - intros H. inversion H. subst. apply eqb_eq in E. subst. left. reflexivity.
+    - intros H. right. apply IH. assumption.
+  Qed.
+  Lemma in_lookup_not_none : forall k (l : list (K * string)) v, In (k, v) l -> lookup eqb k l <> None.
+  Proof.
+    intros k l v. induction l as [|[k' v'] r IH]; cbn; [intros []|].
+    intros [H|H].
+    - inversion H. subst. rewrite (proj2 (eqb_eq k k) eq_refl). discriminate.
+    - destruct (eqb k k'); [discriminate|]. apply IH. assumption.
+  Qed.
+  Lemma desc_of_spec : forall k l d,
+    (forall v, In (k, v) l -> v = d) -> (d <> EmptyString -> In (k, d) l) -> desc_of eqb k l = d.
+  Proof.
+    intros k l d Hf Hin. unfold desc_of. destruct (lookup eqb k l) as [v|] eqn:E.
+    - apply Hf. apply lookup_in_some. assumption.
+    - destruct (string_dec d EmptyString) as [Hd|Hd]; [congruence|].
+      exfalso. apply (in_lookup_not_none k l d (Hin Hd)). assumption.
+  Qed.
+End DescOf.
+
+Lemma key_eqb_eq : forall a b, key_eqb a b = true <-> a = b.
+Proof.
+  intros [a1 a2] [b1 b2]. unfold key_eqb. cbn [fst snd]. rewrite andb_true_iff, Z.eqb_eq, String.eqb_eq.
+  split; [intros [H1 H2]; congruence|intros H; inversion H; auto].
+Qed.
+
+Lemma in_opt_cm : forall d c x, In x (opt_cm d c) <-> d <> EmptyString /\ x = c.
+Proof.
+  intros d c x. unfold opt_cm. destruct (String.eqb d EmptyString) eqn:E.
+  - apply String.eqb_eq in E. split; [intros []|intros [H _]; contradiction].
+  - apply String.eqb_neq in E. cbn. split; [intros [H|[]]; auto|intros [_ H]; auto].
+Qed.
+
+(* membership in the exported comment list, by kind *)
+Definition c_sig (m : message) (s : signal) : dcomment :=
+  mkdcomment OSignal (s_desc s) EmptyString (u32 (m_canid m)) (clear (s_name s)).
+Definition c_msg (m : message) : dcomment := mkdcomment OMessage (m_desc m) EmptyString (u32 (m_canid m)) EmptyString.
+Definition c_node (n : node) : dcomment := mkdcomment ONode (n_desc n) (clear (n_name n)) 0 EmptyString.
+Definition c_bus (b : bus) : dcomment := mkdcomment OGeneral (b_desc b) EmptyString 0 EmptyString.
+
+Lemma in_msg_cms : forall m c, In c (msg_cms m) <->
+  (m_desc m <> EmptyString /\ c = c_msg m) \/ (exists s, In s (m_signals m) /\ s_desc s <> EmptyString /\ c = c_sig m s).
+Proof.
+  intros m c. unfold msg_cms. rewrite in_app_iff, in_opt_cm, in_flat_map. unfold sig_cms.
+  split; (intros [H|[s [Hs H]]]; [left; exact H|right; exists s; rewrite in_opt_cm in *; tauto]).
+Qed.
+
+Lemma in_node_cms_rest : forall b c, 
+  flat_map (fun n => filter (fun m => String.eqb (m_sender m) (n_name n)) (b_messages b)) (b_nodes b) = b_messages b ->
+  (In c (flat_map (node_cms b) (b_nodes b)) <->
+   (exists n, In n (b_nodes b) /\ n_desc n <> EmptyString /\ c = c_node n) \/
+   (exists m, In m (b_messages b) /\ In c (msg_cms m))).
+Proof.
+  intros b c Hg. rewrite in_flat_map. unfold node_cms. split.
+  - intros [n [Hn H]]. rewrite in_app_iff, in_opt_cm, in_flat_map in H. destruct H as [[H1 H2]|[m [Hm H]]].
+    + left. exists n. auto.
+    + right. exists m. apply filter_In in Hm. tauto.
+  - intros [[n [Hn [H1 H2]]]|[m [Hm H]]].
+    + exists n. split; [assumption|]. rewrite in_app_iff, in_opt_cm. left. auto.
+    + rewrite <- Hg in Hm. apply in_flat_map in Hm. destruct Hm as [n [Hn Hm]].
+      exists n. split; [assumption|]. rewrite in_app_iff, in_flat_map. right. exists m. auto.
+Qed.
+
+Lemma gdesc_none : forall l a, (forall c, In c l -> cm_kind c <> OGeneral) -> gdesc l a = a.
+Proof.
+  induction l as [|c r IH]; intros a H; [reflexivity|]. unfold gdesc in *. cbn [fold_left].
+  destruct (cm_kind c) eqn:E; try (apply IH; intros; apply H; right; assumption).
+  exfalso. apply (H c (or_introl eq_refl)). assumption.
+Qed.
+
+Section CommentsOfPlain.
+  Variable b : bus.
+  Hypothesis Hpb : plain_bus b.
+
+  Let Hg : flat_map (fun n => filter (fun m => String.eqb (m_sender m) (n_name n)) (b_messages b)) (b_nodes b) = b_messages b.
+  Proof. destruct Hpb as [_ [_ [_ [_ [_ [_ [_ [_ H]]]]]]]]. exact H. Qed.
+
+  Lemma rest_kinds : forall c, In c (flat_map (node_cms b) (b_nodes b)) -> cm_kind c <> OGeneral.
+  Proof.
+    intros c H. apply (in_node_cms_rest b c Hg) in H. destruct H as [[n [_ [_ H]]]|[m [_ H]]].
+    - subst. discriminate.
+    - apply in_msg_cms in H. destruct H as [[_ H]|[s [_ [_ H]]]]; subst; discriminate.
+  Qed.
+
+  Lemma gdesc_doc : gdesc (doc_cms b) EmptyString = b_desc b.
+  Proof.
+    unfold doc_cms, gdesc. rewrite fold_left_app. fold (gdesc (flat_map (node_cms b) (b_nodes b))).
+    rewrite gdesc_none by apply rest_kinds.
+    unfold opt_cm. destruct (String.eqb (b_desc b) EmptyString) eqn:E; cbn; [apply String.eqb_eq in E; congruence|reflexivity].
+  Qed.
+
+  Lemma in_doc_cms : forall c, In c (doc_cms b) <->
+    (b_desc b <> EmptyString /\ c = c_bus b) \/
+    (exists n, In n (b_nodes b) /\ n_desc n <> EmptyString /\ c = c_node n) \/
+    (exists m, In m (b_messages b) /\ In c (msg_cms m)).
+  Proof.
+    intros c. unfold doc_cms. rewrite in_app_iff, in_opt_cm, (in_node_cms_rest b c Hg). reflexivity.
+  Qed.
+
+  Lemma NoDup_map_inj : forall {A B} (f : A -> B) l x y, NoDup (map f l) -> In x l -> In y l -> f x = f y -> x = y.
+  Proof.
+    intros A B f l. induction l as [|a r IH]; intros x y Hnd Hx Hy Hf; [destruct Hx|].
+    cbn in Hnd. inversion Hnd as [|? ? Hn Hr]; subst.
+    destruct Hx as [Hx|Hx], Hy as [Hy|Hy]; subst; auto.
+    - exfalso. apply Hn. rewrite Hf. apply in_map. assumption.
+    - exfalso. apply Hn. rewrite <- Hf. apply in_map. assumption.
+  Qed.
+
+  Lemma node_desc_ok : forall n, In n (b_nodes b) ->
+    desc_of String.eqb (clear (n_name n)) (rev (npairs (doc_cms b))) = n_desc n.
+  Proof.
+    intros n Hn. destruct Hpb as [_ [_ [Hnd _]]].
+    apply (desc_of_spec String.eqb String.eqb_eq).
+    - intros v Hv. apply in_rev in Hv. apply in_pairs_n in Hv. destruct Hv as [c [Hc [Hk [H1 H2]]]].
+      apply in_doc_cms in Hc. destruct Hc as [[_ Hc]|[[n' [Hn' [_ Hc]]]|[m [_ Hc]]]].
+      + subst c. discriminate.
+      + subst c. cbn in H1, H2. subst v. f_equal.
+        symmetry. apply (NoDup_map_inj (fun n => clear (n_name n)) (b_nodes b)); auto.
+      + apply in_msg_cms in Hc. destruct Hc as [[_ Hc]|[s [_ [_ Hc]]]]; subst c; discriminate.
+    - intros Hd. apply -> in_rev. apply in_pairs_n. exists (c_node n). split; [|cbn; auto].
+      apply in_doc_cms. right. left. exists n. auto.
+  Qed.
+
+  Lemma canid_u32 : forall m, In m (b_messages b) -> u32 (m_canid m) = m_canid m.
+  Proof.
+    intros m Hm. destruct Hpb as [_ [_ [_ [_ [_ [Hms _]]]]]]. rewrite Forall_forall in Hms.
+    destruct (Hms m Hm) as [_ [_ [_ [_ [_ [Hid _]]]]]]. apply u32_id. assumption.
+  Qed.
+
+  Lemma msg_desc_ok : forall m, In m (b_messages b) ->
+    desc_of Z.eqb (u32 (m_canid m)) (rev (mpairs (doc_cms b))) = m_desc m.
+  Proof.
+    intros m Hm. pose proof Hpb as [_ [_ [_ [_ [_ [_ [Hcan _]]]]]]].
+    apply (desc_of_spec Z.eqb Z.eqb_eq).
+    - intros v Hv. apply in_rev in Hv. apply in_pairs_m in Hv. destruct Hv as [c [Hc [Hk [H1 H2]]]].
+      apply in_doc_cms in Hc. destruct Hc as [[_ Hc]|[[n' [Hn' [_ Hc]]]|[m' [Hm' Hc]]]].
+      + subst c. discriminate.
+      + subst c. discriminate.
+      + apply in_msg_cms in Hc. destruct Hc as [[_ Hc]|[s [_ [_ Hc]]]]; subst c; [|discriminate].
+        cbn in H1, H2. subst v. f_equal. symmetry.
+        apply (NoDup_map_inj m_canid (b_messages b)); auto. rewrite <- (canid_u32 m), <- (canid_u32 m') by assumption. auto.
+    - intros Hd. apply -> in_rev. apply in_pairs_m. exists (c_msg m). split; [|cbn; auto].
+      apply in_doc_cms. right. right. exists m. split; [assumption|]. apply in_msg_cms. left. auto.
+  Qed.
+
+  Lemma sig_desc_ok : forall m s, In m (b_messages b) -> In s (m_signals m) ->
+    desc_of key_eqb (u32 (m_canid m), clear (s_name s)) (rev (spairs (doc_cms b))) = s_desc s.
+  Proof.
+    intros m s Hm Hs. pose proof Hpb as [_ [_ [_ [_ [_ [Hms [Hcan _]]]]]]].
+    apply (desc_of_spec key_eqb key_eqb_eq).
+    - intros v Hv. apply in_rev in Hv. apply in_pairs_s in Hv. destruct Hv as [c [Hc [Hk [H1 H2]]]].
+      apply in_doc_cms in Hc. destruct Hc as [[_ Hc]|[[n' [Hn' [_ Hc]]]|[m' [Hm' Hc]]]].
+      + subst c. discriminate.
+      + subst c. discriminate.
+      + apply in_msg_cms in Hc. destruct Hc as [[_ Hc]|[s' [Hs' [_ Hc]]]]; subst c; [discriminate|].
+        cbn in H1, H2. subst v. inversion H1 as [[E1 E2]].
+        assert (m' = m).
+        { apply (NoDup_map_inj m_canid (b_messages b)); auto. rewrite <- (canid_u32 m), <- (canid_u32 m') by assumption. auto. }
+        subst m'. f_equal.
+        rewrite Forall_forall in Hms. destruct (Hms m Hm) as [_ [_ [_ [_ [_ [_ [_ [_ [_ [Hnn _]]]]]]]]]].
+        apply (NoDup_map_inj (fun s => clear (s_name s)) (m_signals m)); auto.
+    - intros Hd. apply -> in_rev. apply in_pairs_s. exists (c_sig m s). split; [|cbn; auto].
+      apply in_doc_cms. right. right. exists m. split; [assumption|]. apply in_msg_cms. right. exists s. auto.
+  Qed.
+End CommentsOfPlain.
 (* ---------------- what the importer makes of that document ---------------- *)
-Fixpoint mk_nodes (i : Z) (names : list string) : list node :=
-  match names with [] => [] | nm :: r => mknode nm i EmptyString [] :: mk_nodes (i + 1) r end.
+Notation cname := (fun n : node => clear (n_name n)).
+Fixpoint mk_nodes (i : Z) (nodes : list node) : list node :=
+  match nodes with [] => [] | n :: r => mknode (clear (n_name n)) i (n_desc n) [] :: mk_nodes (i + 1) r end.
 
 Lemma not_in_mem_str : forall s l, ~ In s l -> mem_str s l = false.
 Proof.
@@ -192,25 +457,30 @@ Proof.
   apply existsb_exists in E. destruct E as [x [Hx He]]. apply Z.eqb_eq in He. subst. contradiction.
 Qed.
 
-Lemma import_nodes_aux_ok : forall names idx acc,
-  NoDup (map n_name acc ++ names) -> ~ In dummy_node names -> (forall n, In n acc -> n_id n < idx) ->
-  import_nodes_aux [] names idx acc = Ok (acc ++ mk_nodes idx names).
+Lemma import_nodes_aux_ok : forall nd names idx acc,
+  NoDup (map n_name acc ++ map cname names) -> ~ In dummy_node (map cname names) -> (forall n, In n acc -> n_id n < idx) ->
+  (forall n, In n names -> desc_of String.eqb (clear (n_name n)) nd = n_desc n) ->
+  import_nodes_aux nd (map cname names) idx acc = Ok (acc ++ mk_nodes idx names).
 Proof.
-  induction names as [|nm r IH]; intros idx acc Hnd Hdm Hid; cbn [import_nodes_aux mk_nodes].
+  intros nd. induction names as [|n0 r IH]; intros idx acc Hnd Hdm Hid Hds; cbn [import_nodes_aux mk_nodes map].
   - rewrite app_nil_r. reflexivity.
-  - assert (Hne : String.eqb nm dummy_node = false).
-    { destruct (String.eqb nm dummy_node) eqn:E; [|reflexivity]. apply String.eqb_eq in E. subst. exfalso. apply Hdm. left. reflexivity. }
+  - cbn [map] in Hnd, Hdm. pose proof (Hds n0 (or_introl eq_refl)) as Hd0. unfold desc_of in Hd0.
+    remember (clear (n_name n0)) as nm eqn:Enm.
+    assert (Hne : String.eqb nm dummy_node = false).
+    { destruct (String.eqb nm dummy_node) eqn:E; [|reflexivity]. apply String.eqb_eq in E. exfalso. apply Hdm. left. assumption. }
     rewrite Hne.
     assert (Hnot : ~ In nm (map n_name acc)).
     { apply NoDup_remove_2 in Hnd. intros Hin. apply Hnd. apply in_or_app. left. assumption. }
     rewrite (not_in_mem_str _ _ Hnot).
     rewrite not_in_mem_z.
     2:{ intros Hin. apply in_map_iff in Hin. destruct Hin as [n [Hn1 Hn2]]. specialize (Hid n Hn2). lia. }
-    cbn [lookup]. rewrite IH.
+    rewrite Hd0.
+    rewrite IH.
     + rewrite <- app_assoc. reflexivity.
     + rewrite map_app. cbn [map n_name]. rewrite <- app_assoc. exact Hnd.
     + intros H. apply Hdm. right. assumption.
     + intros n Hn. apply in_app_or in Hn. destruct Hn as [Hn|[Hn|[]]]; [specialize (Hid n Hn); lia|subst; cbn; lia].
+    + intros n Hn. apply Hds. right. assumption.
 Qed.
 
 Lemma mk_nodes_ids : forall names i n, In n (mk_nodes i names) -> i <= n_id n < i + Z.of_nat (length names).
@@ -219,25 +489,27 @@ Proof.
   cbn [mk_nodes length] in *. rewrite Nat2Z.inj_succ. destruct H as [H|H]; [subst; cbn; lia|].
   apply IH in H. lia.
 Qed.
-Lemma mk_nodes_names : forall names i, map n_name (mk_nodes i names) = names.
+Lemma mk_nodes_names : forall names i, map n_name (mk_nodes i names) = map cname names.
 Proof. induction names as [|nm r IH]; intros i; cbn; [reflexivity|]. rewrite IH. reflexivity. Qed.
 
-Lemma import_nodes_ok : forall names,
-  NoDup names -> ~ In dummy_node names -> (length names <= 1024)%nat ->
-  import_nodes [] names = Ok (mk_nodes 0 names ++ [mknode dummy_node 1024 EmptyString []]).
+Lemma import_nodes_ok : forall nd names,
+  NoDup (map cname names) -> ~ In dummy_node (map cname names) -> (length names <= 1024)%nat ->
+  (forall n, In n names -> desc_of String.eqb (clear (n_name n)) nd = n_desc n) ->
+  import_nodes nd (map cname names) = Ok (mk_nodes 0 names ++ [mknode dummy_node 1024 EmptyString []]).
 Proof.
-  intros names Hnd Hdm Hlen. unfold import_nodes.
-  rewrite (import_nodes_aux_ok names 0 []); [|assumption|assumption|intros n []].
+  intros nd names Hnd Hdm Hlen Hds. unfold import_nodes.
+  rewrite (import_nodes_aux_ok nd names 0 []); [|assumption|assumption|intros n []|assumption].
   cbn [bind app]. rewrite not_in_mem_z; [reflexivity|].
   intros Hin. apply in_map_iff in Hin. destruct Hin as [n [Hn1 Hn2]]. apply mk_nodes_ids in Hn2. lia.
 Qed.
 
 (* ---- signals ---- *)
-Definition empty_env : ienv := mkienv [] [] [] [] [].
+Definition penv (nd : list (string * string)) (md : list (Z * string)) (sd : list (key * string)) : ienv :=
+  mkienv nd md sd [] [].
 
 Definition isig_of (id : Z) (s : signal) : signal :=
   mksignal id (clear (s_name s)) KStandard (s_rel s) None [] (s_size s) (s_signed s)
-           (s_scale s) (s_offset s) (s_min s) (s_max s) (s_unit s) 0 0 0 EmptyString fl_zero 0 [].
+           (s_scale s) (s_offset s) (s_min s) (s_max s) (s_unit s) 0 0 0 (s_desc s) fl_zero 0 [].
 
 Lemma dsig_start : forall o recs s, 0 <= s_rel s < 2 ^ 31 -> get_start_bit (dsig_of o recs s) = s_rel s.
 Proof.
@@ -249,16 +521,18 @@ Proof.
     unfold pos_of_dbc, dbc_of_pos in H1. exact H1.
 Qed.
 
-Lemma import_signal_plain : forall st mpos msgid id o recs s,
-  plain_signal s ->
-  exists st', import_signal empty_env st mpos msgid id (dsig_of o recs s)
+Lemma import_signal_plain : forall nd md sd st mpos msgid id o recs s,
+  plain_signal s -> desc_of key_eqb (msgid, clear (s_name s)) sd = s_desc s ->
+  exists st', import_signal (penv nd md sd) st mpos msgid id (dsig_of o recs s)
               = Ok (place (isig_of id s) 0 None [], st') /\ is_enums st' = is_enums st.
 Proof.
-  intros st mpos msgid id o recs s [Hk [Hp [Hg [Hd [Hv [Ht [Ha [Hs Hr]]]]]]]].
-  unfold import_signal, empty_env. cbn [ie_sig_enums ie_sig_desc lookup].
+  intros nd md sd st mpos msgid id o recs s [Hk [Hp [Hg [Hv [Ht [Ha [Hs Hr]]]]]]] Hd.
+  unfold import_signal, penv. cbn [ie_sig_enums ie_sig_desc lookup].
   unfold import_standard. cbn [dsig_of ds_size ds_name ds_signed ds_factor ds_offset ds_min ds_max ds_unit].
   rewrite u32_id by lia. replace (s_size s <=? 0) with false by lia.
-  cbn [bind]. eexists. split; [reflexivity|reflexivity].
+  cbn [bind]. unfold desc_of in Hd.
+  destruct (lookup key_eqb (msgid, clear (s_name s)) sd) as [d|];
+    (eexists; split; [unfold isig_of; rewrite <- Hd; reflexivity|reflexivity]).
 Qed.
 
 Definition all_top (l : list signal) : Prop :=
@@ -292,7 +566,8 @@ Proof.
   rewrite verify_insert_ok by assumption. reflexivity.
 Qed.
 
-Lemma plain_import_fold : forall mpos msgid msize o recs l i st done from,
+Lemma plain_import_fold : forall nd md sd mpos msgid msize o recs l i st done from,
+  (forall s, In s l -> desc_of key_eqb (msgid, clear (s_name s)) sd = s_desc s) ->
   Forall plain_signal l -> layout_ok from (msize * 8) l -> 0 <= from -> msize <= 8 ->
   is_enums st = [] -> all_top done ->
   (forall d, In d done -> s_rel d + s_size d <= from) ->
@@ -300,18 +575,18 @@ Lemma plain_import_fold : forall mpos msgid msize o recs l i st done from,
   exists st',
   fold_left (fun acc (p : Z * dsignal) => let '(id, ds) := p in
       do (st0, sg) <- acc;
-      do (s, st1) <- import_signal empty_env st0 mpos msgid id ds;
+      do (s, st1) <- import_signal (penv nd md sd) st0 mpos msgid id ds;
       (let '(st2, sg2) := (st1, sg) in
        do sg' <- msg_insert (is_enums st2) msize sg2 (s, []) (get_start_bit ds); Ok (st2, sg')))
     (index_from i (map (dsig_of o recs) l)) (Ok (st, done))
   = Ok (st', done ++ map (fun p => isig_of (fst p) (snd p)) (index_from i l)) /\ is_enums st' = [].
 Proof.
-  intros mpos msgid msize o recs l. induction l as [|s r IH]; intros i st done from Hp Hl H0 Hm He Ht Hd Hn.
+  intros nd md sd mpos msgid msize o recs l. induction l as [|s r IH]; intros i st done from Hds Hp Hl H0 Hm He Ht Hd Hn.
   - cbn. exists st. rewrite app_nil_r. auto.
   - inversion Hp as [|? ? Hps Hpr]; subst. cbn [layout_ok] in Hl. destruct Hl as [L1 [L2 L3]].
-    pose proof Hps as [Hk [Hpa [Hg [Hde [Hv [Hty [Ha [Hs Hr]]]]]]]].
+    pose proof Hps as [Hk [Hpa [Hg [Hv [Hty [Ha [Hs Hr]]]]]]].
     cbn [map index_from fold_left bind].
-    destruct (import_signal_plain st mpos msgid i o recs s Hps) as [st1 [E1 E2]].
+    destruct (import_signal_plain nd md sd st mpos msgid i o recs s Hps (Hds s (or_introl eq_refl))) as [st1 [E1 E2]].
     rewrite E1. cbn [bind]. rewrite E2, He.
     rewrite dsig_start by lia.
     assert (Hfresh : ~ In (s_name (place (isig_of i s) 0 None [])) (map s_name done)).
@@ -320,6 +595,7 @@ Proof.
       try (intros d Hin; specialize (Hd d Hin); lia).
     cbn [bind app].
     destruct (IH (i + 1) st1 (done ++ [isig_of i s]) (s_rel s + s_size s)) as [st' [F1 F2]]; try assumption; try lia.
+    + intros s' Hs'. apply Hds. right. assumption.
     + rewrite E2. assumption.
     + intros d Hin. apply in_app_or in Hin. destruct Hin as [Hin|[Hin|[]]]; [apply Ht; assumption|subst; cbn; auto].
     + intros d Hin. apply in_app_or in Hin. destruct Hin as [Hin|[Hin|[]]]; [specialize (Hd d Hin); lia|subst; cbn; lia].
@@ -336,7 +612,7 @@ Definition recs_in (m : message) : list string :=
 Definition imsg_of (m : message) : message :=
   mkmessage (m_canid m) (clear (m_name m)) (m_size m)
             (match m_signals m with [] => LittleEndian | _ => m_order m end) 0 0 0 0
-            (clear (m_sender m)) (recs_in m) EmptyString []
+            (clear (m_sender m)) (recs_in m) (m_desc m) []
             (map (fun p => isig_of (fst p) (snd p)) (index_from 0 (m_signals m))).
 
 Lemma dedup_all_seen : forall l seen, (forall x, In x l -> In x seen) -> dedup_str seen l = [].
@@ -377,58 +653,62 @@ Proof.
   intros o recs l from limit Hp Hl H0 Hlim. apply (sort_by_ascending get_start_bit).
   revert from Hl H0. induction l as [|s r IH]; intros from Hl H0; [exact I|].
   inversion Hp as [|? ? Hps Hpr]; subst. cbn [layout_ok] in Hl. destruct Hl as [L1 [L2 L3]].
-  destruct Hps as [_ [_ [_ [_ [_ [_ [_ [Hs Hr]]]]]]]].
+  destruct Hps as [_ [_ [_ [_ [_ [_ [Hs Hr]]]]]]].
   cbn [map ascending_by]. split; [|apply (IH Hpr (s_rel s + s_size s)); [assumption|lia]].
   destruct r as [|y q]; [exact I|]. cbn [map].
-  inversion Hpr as [|? ? Hpy _]; subst. destruct Hpy as [_ [_ [_ [_ [_ [_ [_ [Hsy Hry]]]]]]]].
+  inversion Hpr as [|? ? Hpy _]; subst. destruct Hpy as [_ [_ [_ [_ [_ [_ [Hsy Hry]]]]]]].
   cbn [layout_ok] in L3. destruct L3 as [M1 [M2 _]].
   rewrite !dsig_start by lia. lia.
 Qed.
 
-Lemma import_message_signals_plain_ok : forall st mpos m names,
+Lemma import_message_signals_plain_ok : forall nd md sd st mpos m names,
   plain_message names m -> is_enums st = [] ->
-  exists st', import_message_signals empty_env st mpos (dmsg_of m)
+  (forall s, In s (m_signals m) -> desc_of key_eqb (u32 (m_canid m), clear (s_name s)) sd = s_desc s) ->
+  exists st', import_message_signals (penv nd md sd) st mpos (dmsg_of m)
               = Ok (st', map (fun p => isig_of (fst p) (snd p)) (index_from 0 (m_signals m))) /\ is_enums st' = [].
 Proof.
-  intros st mpos m names [Hd [Ha [Hc [Hdl [Hsd [Hst [Hid [Hsz [Hps [Hlay [Hnn _]]]]]]]]]]] He.
+  intros nd md sd st mpos m names [Ha [Hc [Hdl [Hsd [Hst [Hid [Hsz [Hps [Hlay [Hnn _]]]]]]]]]] He Hds.
   unfold import_message_signals. cbn [dm_signals dm_id dm_size dmsg_of].
   rewrite (sorted_dsigs _ _ _ 0 (m_size m * 8)) by (try assumption; lia).
   rewrite Proofs.filter_nil.
   2:{ intros [i ds] Hin. cbn [snd].
-      assert (Hds : In ds (map (dsig_of (m_order m) (recs_out m)) (m_signals m))).
+      assert (Hdin : In ds (map (dsig_of (m_order m) (recs_out m)) (m_signals m))).
       { rewrite <- (Proofs.index_from_snd (map (dsig_of (m_order m) (recs_out m)) (m_signals m)) 0).
         apply in_map_iff. exists (i, ds). auto. }
-      apply in_map_iff in Hds. destruct Hds as [s [Hs _]]. subst ds. reflexivity. }
+      apply in_map_iff in Hdin. destruct Hdin as [s [Hs0 _]]. subst ds. reflexivity. }
   assert (Hnomuxed : existsb (fun p : Z * dsignal => ds_muxed (snd p))
                             (index_from 0 (map (dsig_of (m_order m) (recs_out m)) (m_signals m))) = false).
   { destruct (existsb _ _) eqn:E; [|reflexivity]. apply existsb_exists in E. destruct E as [[i ds] [Hin Hmd]]. cbn [snd] in Hmd.
-    assert (Hds : In ds (map (dsig_of (m_order m) (recs_out m)) (m_signals m))).
+    assert (Hdin : In ds (map (dsig_of (m_order m) (recs_out m)) (m_signals m))).
     { rewrite <- (Proofs.index_from_snd (map (dsig_of (m_order m) (recs_out m)) (m_signals m)) 0).
       apply in_map_iff. exists (i, ds). auto. }
-    apply in_map_iff in Hds. destruct Hds as [s [Hs _]]. subst ds. discriminate Hmd. }
+    apply in_map_iff in Hdin. destruct Hdin as [s [Hs0 _]]. subst ds. discriminate Hmd. }
   rewrite Hnomuxed.
   rewrite (u32_id (m_size m)) by lia.
-  destruct (plain_import_fold mpos (u32 (m_canid m)) (m_size m) (m_order m) (recs_out m) (m_signals m) 0 st [] 0)
+  destruct (plain_import_fold nd md sd mpos (u32 (m_canid m)) (m_size m) (m_order m) (recs_out m) (m_signals m) 0 st [] 0)
     as [st' [F1 F2]]; try assumption; try lia.
   - intros d [].
   - intros d [].
   - exists st'. split; [|assumption]. cbn [app] in F1. exact F1.
 Qed.
 
-Lemma import_message_plain : forall raw_names nodes st done m,
+Lemma import_message_plain : forall nd md sd raw_names nodes st done m,
   plain_message raw_names m -> is_enums st = [] ->
+  desc_of Z.eqb (u32 (m_canid m)) md = m_desc m ->
+  (forall s, In s (m_signals m) -> desc_of key_eqb (u32 (m_canid m), clear (s_name s)) sd = s_desc s) ->
   (forall r, In r raw_names -> In (clear r) (map n_name nodes)) ->
   (forall r, In r raw_names -> clear r <> dummy_node) ->
   ~ In (m_canid m) (map m_canid done) ->
   ~ In (clear (m_sender m), clear (m_name m)) (map (fun x => (m_sender x, m_name x)) done) ->
-  exists st', import_message empty_env (st, done) nodes (dmsg_of m) = Ok (st', done ++ [imsg_of m]) /\ is_enums st' = [].
+  exists st', import_message (penv nd md sd) (st, done) nodes (dmsg_of m) = Ok (st', done ++ [imsg_of m]) /\ is_enums st' = [].
 Proof.
-  intros raw_names nodes st done m Hpm He Hnodes Hnd Hcan Hpair.
-  pose proof Hpm as [Hd [Ha [Hc [Hdl [Hsd [Hst [Hid [Hsz [Hps [Hlay [Hnn [Hsn [Hrc [Hrn Hre]]]]]]]]]]]]]].
-  destruct (import_message_signals_plain_ok st (length done) m raw_names Hpm He) as [st' [Hsig He']].
+  intros nd md sd raw_names nodes st done m Hpm He Hmd Hsds Hnodes Hnd Hcan Hpair.
+  pose proof Hpm as [Ha [Hc [Hdl [Hsd [Hst [Hid [Hsz [Hps [Hlay [Hnn [Hsn [Hrc [Hrn Hre]]]]]]]]]]]]].
+  destruct (import_message_signals_plain_ok nd md sd st (length done) m raw_names Hpm He Hsds) as [st' [Hsig He']].
   exists st'. split; [|assumption].
   unfold import_message. cbv zeta.
-  cbn [dm_signals dm_id dm_size dm_tx dm_name dmsg_of ie_msg_desc empty_env lookup].
+  cbn [dm_signals dm_id dm_size dm_tx dm_name dmsg_of ie_msg_desc penv].
+  unfold desc_of in Hmd. rewrite Hmd.
   rewrite (sorted_dsigs _ _ _ 0 (m_size m * 8)) by (try assumption; lia).
   (* byte order *)
   assert (Hord : match map (dsig_of (m_order m) (recs_out m)) (m_signals m) with
@@ -476,67 +756,77 @@ Proof.
   rewrite Hsig. cbn [bind]. reflexivity.
 Qed.
 
-Lemma import_messages_plain : forall raw_names nodes l st done,
+Lemma import_messages_plain : forall nd md sd raw_names nodes l st done,
   Forall (plain_message raw_names) l -> is_enums st = [] ->
+  (forall m, In m l -> desc_of Z.eqb (u32 (m_canid m)) md = m_desc m) ->
+  (forall m s, In m l -> In s (m_signals m) -> desc_of key_eqb (u32 (m_canid m), clear (s_name s)) sd = s_desc s) ->
   (forall r, In r raw_names -> In (clear r) (map n_name nodes)) ->
   (forall r, In r raw_names -> clear r <> dummy_node) ->
   NoDup (map m_canid done ++ map m_canid l) ->
   NoDup (map (fun x => (m_sender x, m_name x)) done ++ map (fun m => (clear (m_sender m), clear (m_name m))) l) ->
   exists st',
-    fold_left (fun acc dm => do a <- acc; import_message empty_env a nodes dm) (map dmsg_of l) (Ok (st, done))
+    fold_left (fun acc dm => do a <- acc; import_message (penv nd md sd) a nodes dm) (map dmsg_of l) (Ok (st, done))
     = Ok (st', done ++ map imsg_of l) /\ is_enums st' = [].
 Proof.
-  intros raw_names nodes l. induction l as [|m r IH]; intros st done Hp He Hn Hd Hc Hq.
+  intros nd md sd raw_names nodes l. induction l as [|m r IH]; intros st done Hp He Hmds Hsds Hn Hd Hc Hq.
   - cbn. exists st. rewrite app_nil_r. auto.
   - inversion Hp as [|? ? Hpm Hpr]; subst. cbn [map fold_left bind].
-    destruct (import_message_plain raw_names nodes st done m Hpm He Hn Hd) as [st1 [E1 E2]].
+    destruct (import_message_plain nd md sd raw_names nodes st done m Hpm He (Hmds m (or_introl eq_refl))
+                (fun s Hs => Hsds m s (or_introl eq_refl) Hs) Hn Hd) as [st1 [E1 E2]].
     + cbn [map] in Hc. apply NoDup_remove_2 in Hc. intros Hin. apply Hc. apply in_or_app. left. assumption.
     + cbn [map] in Hq. apply NoDup_remove_2 in Hq. intros Hin. apply Hq. apply in_or_app. left. assumption.
     + rewrite E1. destruct (IH st1 (done ++ [imsg_of m])) as [st' [F1 F2]]; try assumption.
+      * intros m' Hm'. apply Hmds. right. assumption.
+      * intros m' s' Hm' Hs'. apply Hsds; [right|]; assumption.
       * rewrite map_app. cbn [map m_canid imsg_of]. rewrite <- app_assoc. exact Hc.
       * rewrite map_app. cbn [map m_sender m_name imsg_of]. rewrite <- app_assoc. exact Hq.
       * exists st'. split; [|assumption]. rewrite F1, <- app_assoc. reflexivity.
 Qed.
 
 Definition imported (b : bus) : bus :=
-  mkbus (b_name b) EmptyString [] (mk_nodes 0 (map (fun n => clear (n_name n)) (b_nodes b))) []
+  mkbus (b_name b) (b_desc b) [] (mk_nodes 0 (b_nodes b)) []
         (map imsg_of (b_messages b)).
 
-Lemma mk_nodes_not_dummy : forall names i, ~ In dummy_node names ->
+Lemma mk_nodes_not_dummy : forall names i, ~ In dummy_node (map cname names) ->
   filter (fun n => negb (String.eqb (n_name n) dummy_node)) (mk_nodes i names) = mk_nodes i names.
 Proof.
   intros names i H. apply filter_all. intros n Hn.
-  assert (Hin : In (n_name n) names) by (rewrite <- (mk_nodes_names names i); apply in_map; assumption).
+  assert (Hin : In (n_name n) (map cname names)) by (rewrite <- (mk_nodes_names names i); apply in_map; assumption).
   destruct (String.eqb (n_name n) dummy_node) eqn:E; [|reflexivity].
   apply String.eqb_eq in E. rewrite E in Hin. contradiction.
 Qed.
 
 Lemma export_import_plain : forall b, plain_bus b -> export_import b = Ok (imported b).
 Proof.
-  intros b Hpb. pose proof Hpb as [Hd [Ha [Hn [Hnn [Hdm [Hlen [Hm [Hcan [Hpair Hg]]]]]]]]].
+  intros b Hpb. pose proof Hpb as [Ha [Hn [Hnn [Hdm [Hlen [Hm [Hcan [Hpair Hg]]]]]]]].
   unfold export_import. rewrite (export_plain b Hpb).
   unfold text_roundtrip, plain_doc. cbn [d_filename d_nodes d_valtables d_messages d_comments d_attrs d_attrdefs d_attrvals d_valencs d_extmuxes map].
-  unfold import. cbn [d_filename d_nodes d_valtables d_messages d_comments d_attrs d_attrdefs d_attrvals d_valencs d_extmuxes
-                     import_comments fold_left bind length fst snd import_ext_muxes].
-  rewrite import_nodes_ok; [|assumption|assumption|rewrite map_length; assumption].
-  cbn [bind]. fold empty_env.
-  set (nodes' := mk_nodes 0 (map (fun n => clear (n_name n)) (b_nodes b)) ++ [mknode dummy_node 1024 EmptyString []]).
+  unfold import. cbn [d_filename d_nodes d_valtables d_messages d_comments d_attrs d_attrdefs d_attrvals d_valencs d_extmuxes].
+  rewrite import_comments_spec, (gdesc_doc b Hpb).
+  cbn [fold_left bind length fst snd import_ext_muxes].
+  rewrite import_nodes_ok; [|assumption|assumption|assumption|intros n Hin; apply (node_desc_ok b Hpb); assumption].
+  cbn [bind].
+  set (nd := rev (npairs (doc_cms b))). set (md := rev (mpairs (doc_cms b))). set (sd := rev (spairs (doc_cms b))).
+  change (mkienv nd md sd [] []) with (penv nd md sd).
+  set (nodes' := mk_nodes 0 (b_nodes b) ++ [mknode dummy_node 1024 EmptyString []]).
   assert (Hnames' : map n_name nodes' = map (fun n => clear (n_name n)) (b_nodes b) ++ [dummy_node]).
   { unfold nodes'. rewrite map_app, mk_nodes_names. reflexivity. }
-  destruct (import_messages_plain (map n_name (b_nodes b)) nodes' (b_messages b) (mkistate [] [] []) []) as [st' [F1 F2]];
+  destruct (import_messages_plain nd md sd (map n_name (b_nodes b)) nodes' (b_messages b) (mkistate [] [] []) []) as [st' [F1 F2]];
     try assumption; try reflexivity.
+  - intros m Hin. apply (msg_desc_ok b Hpb). assumption.
+  - intros m s Hin Hs. apply (sig_desc_ok b Hpb); assumption.
   - intros r Hr. rewrite Hnames'. apply in_or_app. left. apply in_map_iff in Hr. destruct Hr as [n [Hr Hin]]. subst r.
     apply in_map_iff. exists n. auto.
   - intros r Hr Heq. apply Hdm. apply in_map_iff in Hr. destruct Hr as [n [Hr Hin]]. subst r.
     rewrite <- Heq. apply in_map_iff. exists n. auto.
-  - change (mkienv [] [] [] [] []) with empty_env. rewrite F1. cbn [bind app]. rewrite F2.
+  - rewrite F1. cbn [bind app]. rewrite F2.
     unfold import_attributes. cbn [d_attrdefs d_attrs d_attrvals fold_left bind].
     cbn [b_messages b_nodes set_b_nodes].
     assert (Hnos : existsb (fun m => String.eqb (m_sender m) dummy_node) (map imsg_of (b_messages b)) = false).
     { destruct (existsb _ _) eqn:E; [|reflexivity]. apply existsb_exists in E. destruct E as [x [Hx He]].
       apply in_map_iff in Hx. destruct Hx as [m [Hx Hin]]. subst x. cbn [m_sender imsg_of] in He.
       apply String.eqb_eq in He. exfalso. apply Hdm.
-      rewrite Forall_forall in Hm. destruct (Hm m Hin) as [_ [_ [_ [_ [_ [_ [_ [_ [_ [_ [_ [Hs _]]]]]]]]]]]].
+      rewrite Forall_forall in Hm. destruct (Hm m Hin) as [_ [_ [_ [_ [_ [_ [_ [_ [_ [_ [Hs _]]]]]]]]]]].
       apply in_map_iff in Hs. destruct Hs as [n [Hs Hn']]. rewrite <- He, <- Hs. apply in_map_iff. exists n. auto. }
     rewrite Hnos. unfold imported, nodes'. rewrite filter_app, mk_nodes_not_dummy by assumption.
     cbn. rewrite app_nil_r. reflexivity.
@@ -546,12 +836,12 @@ Qed.
 Lemma proj_signal_plain : forall es es' sigs sigs' id s, plain_signal s ->
   proj_signal es' sigs' (isig_of id s) = proj_signal es sigs s.
 Proof.
-  intros es es' sigs sigs' id s [Hk [Hp [Hg [Hd [Hv [Ht [Ha _]]]]]]].
+  intros es es' sigs sigs' id s [Hk [Hp [Hg [Hv [Ht [Ha _]]]]]].
   unfold proj_signal, membership, sig_size.
   rewrite !abs_start_top by (try assumption; reflexivity).
   cbn [s_kind s_name s_rel s_parent s_groups s_size s_signed s_scale s_offset s_min s_max s_unit s_desc
        s_startval s_sendtype s_attrs isig_of].
-  rewrite Hk, Hp, Hd, Hv, Ht, Ha, clear_spaces_idem. reflexivity.
+  rewrite Hk, Hp, Hv, Ht, Ha, clear_spaces_idem. reflexivity.
 Qed.
 
 Lemma index_from_map : forall {A B} (f : Z -> A -> B) (g : A -> B) (l : list A) i,
@@ -564,10 +854,10 @@ Qed.
 Lemma proj_message_plain : forall names es m, plain_message names m ->
   proj_message [] (imsg_of m) = proj_message es m.
 Proof.
-  intros names es m [Hd [Ha [Hc [Hdl [Hsd [Hst [Hid [Hsz [Hps [Hlay [Hnn [Hsn [Hrc [Hrn Hre]]]]]]]]]]]]]].
+  intros names es m [Ha [Hc [Hdl [Hsd [Hst [Hid [Hsz [Hps [Hlay [Hnn [Hsn [Hrc [Hrn Hre]]]]]]]]]]]]].
   unfold proj_message.
   cbn [m_canid m_name m_size m_order m_cycle m_delay m_startdelay m_sendtype m_sender m_receivers m_desc m_attrs m_signals imsg_of].
-  rewrite Hd, Ha, Hc, Hdl, Hsd, Hst, !clear_spaces_idem.
+  rewrite Ha, Hc, Hdl, Hsd, Hst, !clear_spaces_idem.
   assert (Hord : match map (fun p => isig_of (fst p) (snd p)) (index_from 0 (m_signals m)) with
                  | [] => LittleEndian
                  | _ :: _ => match m_signals m with [] => LittleEndian | _ :: _ => m_order m end
@@ -591,15 +881,15 @@ Qed.
 
 Lemma proj_imported : forall b, plain_bus b -> proj_bus (imported b) = proj_bus b.
 Proof.
-  intros b [Hd [Ha [Hn [Hnn [Hdm [Hlen [Hm [Hcan [Hpair Hg]]]]]]]]].
-  unfold proj_bus, imported. cbn [b_desc b_attrs b_nodes b_enums b_messages]. rewrite Hd, Ha.
+  intros b [Ha [Hn [Hnn [Hdm [Hlen [Hm [Hcan [Hpair Hg]]]]]]]].
+  unfold proj_bus, imported. cbn [b_desc b_attrs b_nodes b_enums b_messages]. rewrite Ha.
   f_equal.
   - (* nodes *)
-    assert (Hgen : forall nodes i, Forall (fun n => n_desc n = EmptyString /\ n_attrs n = []) nodes ->
-              map proj_node (mk_nodes i (map (fun n => clear (n_name n)) nodes)) = map proj_node nodes).
+    assert (Hgen : forall nodes i, Forall (fun n => n_attrs n = []) nodes ->
+              map proj_node (mk_nodes i nodes) = map proj_node nodes).
     { induction nodes as [|n r IH]; intros i Hf; cbn [map mk_nodes]; [reflexivity|].
-      inversion Hf as [|? ? [Hnd Hna] Hr]; subst. rewrite IH by assumption. f_equal.
-      unfold proj_node. cbn [n_name n_desc n_attrs]. rewrite Hnd, Hna, clear_spaces_idem. reflexivity. }
+      inversion Hf as [|? ? Hna Hr]; subst. rewrite IH by assumption. f_equal.
+      unfold proj_node. cbn [n_name n_desc n_attrs]. rewrite Hna, clear_spaces_idem. reflexivity. }
     apply Hgen. assumption.
   - (* messages *)
     rewrite map_map. f_equal. apply map_ext_in. intros m Hin.
@@ -614,7 +904,8 @@ Proof.
 Qed.
 
 (* ------------------------------------------------------------------------------------------
-   FULL STATEMENT (not proved; the plain fragment above and the component theorems of Proofs.v are).
+   FULL STATEMENT (not proved; the plain fragment above — standard signals, descriptions, no attributes,
+   enums or multiplexers — and the component theorems of Proofs.v are).
    well_formed: the invariants C01/C04/C05/C07 give on a bus, as far as export/import depend on them.
    names_ok: the "DBC-expressible" proviso.
    ------------------------------------------------------------------------------------------ *)
@@ -725,15 +1016,15 @@ Definition export_import_full_statement : Prop :=
 (* ------------------------------------------------------------------------------------------
    the hypothesis of the plain theorem is satisfiable: two nodes (one with a blank in its name), a
    big-endian message with two signals (one narrower than a byte, one crossing a byte boundary)
-   and a receiver, a message without signals
+   and a receiver, a message without signals; descriptions on the bus, a node, a message, a signal
    ------------------------------------------------------------------------------------------ *)
 Local Open Scope string_scope.
 Definition example_bus : bus :=
-  mkbus "bus" "" []
-    [mknode "ECU 1" 3 "" []; mknode "GW" 7 "" []] []
-    [ mkmessage 256 "engine status" 2 BigEndian 0 0 0 0 "ECU 1" ["GW"] "" []
+  mkbus "bus" "the test bus" []
+    [mknode "ECU 1" 3 "" []; mknode "GW" 7 "the gateway" []] []
+    [ mkmessage 256 "engine status" 2 BigEndian 0 0 0 0 "ECU 1" ["GW"] "status, every 10 ms" []
         [ mksignal 0 "st" KStandard 0 None [] 2 false fl_one fl_zero fl_zero (mkfl 3 0) "" 0 0 0 "" fl_zero 0 [];
-          mksignal 1 "speed x" KStandard 4 None [] 10 true (mkfl 1 (-1)) fl_zero fl_zero (mkfl 1023 (-1)) "km/h" 0 0 0 "" fl_zero 0 [] ];
+          mksignal 1 "speed x" KStandard 4 None [] 10 true (mkfl 1 (-1)) fl_zero fl_zero (mkfl 1023 (-1)) "km/h" 0 0 0 "vehicle speed" fl_zero 0 [] ];
       mkmessage 512 "empty" 1 LittleEndian 0 0 0 0 "GW" [] "" [] [] ].
 
 Ltac nodup_tac := vm_compute; repeat constructor; cbn; intuition discriminate.
